@@ -135,3 +135,38 @@ Proof.
   split; [exact H1|]. split; [exact H2|]. split; [exact H3|]. split; [vm_compute; discriminate|].
   split; [vm_compute; discriminate|]. split; [exact H4|exact H5].
 Qed.
+
+(* ---- TopOnlineAccounts on the example history, fetched one row per batch ---- *)
+From Verif.proofs Require Import OnlineTopSort OnlineTop.
+
+Definition ex_top (batch : nat) : option (res (list oacc * N) * res (list oacc * N)) :=
+  match orun wp4 (ostate_init wp4 ex_genesis 13000000000) ex_sched with
+  | Some s => Some (top_online_b batch wp4 s 7 11 1 14, top_online_b batch wp4 s 3 7 5 6)
+  | None => None
+  end.
+
+Lemma ex_top_hyps : hist_norm wp4 ex_genesis ex_blocks /\ online_pos wp4 ex_genesis ex_blocks.
+Proof.
+  split.
+  - unfold hist_norm. apply (hist_pred_of ex_genesis ex_blocks (acct_norm_ok (op_unit wp4))).
+    + vm_compute. split; reflexivity.
+    + intros k a Hin. unfold ex_genesis in Hin. cbv [In] in Hin. in_cases Hin ltac:(vm_compute; split; reflexivity).
+    + intros b k a Hb Hin. unfold ex_blocks, ex_b in Hb. cbv [In] in Hb.
+      repeat (destruct Hb as [Hb|Hb]; [subst b; cbv [ob_mods In] in Hin;
+              in_cases Hin ltac:(vm_compute; split; reflexivity)|]).
+      destruct Hb.
+  - unfold online_pos. apply (hist_pred_of ex_genesis ex_blocks (fun a => is_online a = true -> nb_exact (op_unit wp4) (a_rbase a) (a_malgos a) <> 0)).
+    + discriminate.
+    + intros k a Hin. unfold ex_genesis in Hin. cbv [In] in Hin. in_cases Hin ltac:(vm_compute; intros; discriminate).
+    + intros b k a Hb Hin. unfold ex_blocks, ex_b in Hb. cbv [In] in Hb.
+      repeat (destruct Hb as [Hb|Hb]; [subst b; cbv [ob_mods In] in Hin;
+              in_cases Hin ltac:(vm_compute; intros; discriminate)|]).
+      destruct Hb.
+Qed.
+
+(* with batch size 1 the loop runs several times; the answers are those of batch size 1024 *)
+Lemma ex_top_values :
+  ex_top 1 = ex_top 1024 /\
+  ex_top 1 = Some (ROk ([mkOAcc 2 8000048000 6 8000000000 6 900 10], 10000120000),
+                   ROk ([mkOAcc 3 2000004000 2 2000000000 1 50 9], 2000004000)).
+Proof. vm_compute. split; reflexivity. Qed.
